@@ -10,6 +10,9 @@ from concurrent.futures import ProcessPoolExecutor
 from pathlib import Path
 
 ROOT = Path(__file__).resolve().parent.parent
+# runs against a scratch copy of the repository (VERIF_REPO set) keep their evidence and replay files out of /verif
+import os as _os
+OUT = ROOT if _os.environ.get("VERIF_REPO", "/repo").rstrip("/") == "/repo" else Path(_os.environ.get("VERIF_SCRATCH_OUT", "/tmp/verif-scratch-out"))
 sys.path.insert(0, str(ROOT))
 
 from harness import tlc  # noqa: E402
@@ -75,8 +78,8 @@ class Check:
     def violation(self, what: str, replay: dict) -> None:
         body = json.dumps({"property": self.pid, "what": what, **replay}, sort_keys=True, default=str, indent=1)
         h = hashlib.sha1(body.encode()).hexdigest()[:10]
-        d = ROOT / "replays"
-        d.mkdir(exist_ok=True)
+        d = OUT / "replays"
+        d.mkdir(parents=True, exist_ok=True)
         path = d / f"{self.pid}-{h}.json"
         path.write_text(body)
         if len(self.violations) < 50:
@@ -110,8 +113,8 @@ class Check:
         ev = {"property_id": self.pid, "tier": self.tier, "seed": self.seed, "level": self.level,
               "coverage": cov, "assumptions": self.assumptions, "wall_s": round(time.time() - self.t0, 2),
               "violations": len(self.violations)}
-        (ROOT / "evidence").mkdir(exist_ok=True)
-        (ROOT / "evidence" / f"{self.pid}.json").write_text(json.dumps(ev, indent=1, default=str))
+        (OUT / "evidence").mkdir(parents=True, exist_ok=True)
+        (OUT / "evidence" / f"{self.pid}.json").write_text(json.dumps(ev, indent=1, default=str))
         if self.drift:
             print(f"note: {len(self.drift)} drift item(s) (code no longer shaped like the implementation spec); see evidence")
         status = "VIOLATIONS" if self.violations else "ok"
